@@ -112,6 +112,13 @@ for p in props:
     i=p['id']
     if i in CLAIMED:
         lvl,tech,text,note,ref=CLAIMED[i]
+        # the space explored and the oracle are stated by the check itself (its `rule` / `explanation`, written into
+        # the evidence on every run); use them verbatim so that the claim cannot drift away from the code
+        try:
+            ev=json.load(open(f'/verif/evidence/{i}.json'))['coverage']
+            text="Explored exhaustively (quick tier; thorough bounds in brackets): "+ev['rule']+". Oracle: "+ev['explanation']+"."
+        except Exception:
+            pass
         checks.append({"property_id":i,"quick_cmd":f"./check {i} quick","thorough_cmd":f"./check {i} thorough",
           "evidence_file":f"evidence/{i}.json","replay_cmd_template":"./check replay {path}","engine":"jv",
           "level_claimed":{"category":lvl,"text":text,"design_ref":ref},"level_note":note,"technique":tech})
